@@ -6,7 +6,7 @@ SPEC = {
         # Syscall-level observer: the sweep again in a child under strace.
         {"name": "opens", "pkg": "./internal/filtering/", "run": "^TestVerifC17Opens$",
          "harness": ["filtering/c17_*.go"], "timeout_quick": 900, "timeout_thorough": 3000,
-         "thorough_only": True},
+         "thorough_only": False},
     ],
 }
 
